@@ -1,6 +1,6 @@
 """Random DIE forests (well-formed DWARF by construction) and the model functions that say what
 dwgrep's raw and cooked views must report for them."""
-from .dwgen import (Attr, Die, Unit, Forest, AbbrevTable, TAG, AT, FORM, ATE, TAG_NAME, AT_NAME, FORM_NAME)
+from .dwgen import (Attr, Die, Unit, Forest, AbbrevTable, TAG, AT, FORM, ATE, TAG_NAME, AT_NAME, FORM_NAME, line_table)
 
 PLAIN_TAGS = ["subprogram", "variable", "base_type", "structure_type", "member", "typedef", "lexical_block", "namespace",
               "pointer_type", "formal_parameter", "enumeration_type", "enumerator", "const_type", "array_type",
@@ -16,6 +16,7 @@ class FCfg:
         self.partial = 0.5        # probability that the file has partial units
         self.refs = True          # specification / abstract_origin chains
         self.import_compile_units = True
+        self.line_tables = True
         self.bulk = 0.2           # chance of a unit padded with a long string (offsets beyond 0x400 / 0x10000)
         self.versions = (2, 3, 4, 5)
         self.shared_abbrevs = 0.4
@@ -209,11 +210,29 @@ class ForestGen:
             if k == "partial":
                 partial_units.append(u)
         f = Forest(units)
+        if cfg.line_tables and self.chance(0.6):
+            # every unit gets a line table of its own with files named after the unit, and some of its DIEs a
+            # DW_AT_decl_file: a file *index*, which means something only together with the unit of the DIE
+            # that stores it (inherited across units through ref_addr links it must still name that unit's file)
+            for k, u in enumerate(units):
+                if self.chance(0.15):
+                    continue
+                u.files = [b"/src/u%d/f%d.c" % (k, j) for j in range(1, self.r.randint(2, 4))]
+                off = len(f.line_section)
+                f.line_section += line_table(u.files)
+                u.root.attrs.append(Attr(AT["stmt_list"], FORM["sec_offset" if u.version >= 4 else "data4"], off))
+                for d in u.dies()[1:]:
+                    if d.tag != TAG["imported_unit"] and self.chance(0.3) and not d.attr(AT["decl_file"]):
+                        d.attrs.append(Attr(AT["decl_file"], FORM["data1"], self.r.randint(1, len(u.files))))
+                        self.label("decl-file")
+            self.label("line-tables")
         if len(units) >= 2 and self.chance(0.5):
             f.table_shuffle = self.r.randint(0, 1 << 30)
             self.label("abbrev-tables-out-of-order")
         if cfg.refs:
             self.add_ref_chains(f)
+            if f.line_section and self.chance(0.6):
+                self.add_cross_unit_chain(f)
         return f
 
     def add_ref_chains(self, f):
@@ -236,6 +255,30 @@ class ForestGen:
                     self.label("both-links")
             if len(dies) >= 4 and self.chance(0.5):
                 self.add_link_tree(dies)
+
+    def add_cross_unit_chain(self, f):
+        """A --ref_addr--> B --> C with A in a later unit, B and C in an earlier one, only C carrying
+        DW_AT_decl_file (and DW_AT_decl_line): the file index must be read against C's unit whichever
+        word integrates it, also two links away."""
+        us = [u for u in f.units if u.files]
+        if len(us) < 2:
+            return
+        ui, uj = sorted(self.r.sample(range(len(us)), 2))
+        ok = lambda d: d.tag not in (TAG["compile_unit"], TAG["partial_unit"], TAG["imported_unit"])
+        di = [d for d in us[ui].dies() if ok(d)]
+        dj = [d for d in us[uj].dies() if ok(d)]
+        if len(di) < 2 or not dj:
+            return
+        ci, bi = sorted(self.r.sample(range(len(di)), 2))
+        c_, b_, a_ = di[ci], di[bi], self.r.choice(dj)
+        LINKS = (AT["specification"], AT["abstract_origin"])
+        for x in (a_, b_, c_):
+            x.attrs = [t for t in x.attrs if t.name not in LINKS + (AT["decl_file"], AT["decl_line"])]
+        c_.attrs.append(Attr(AT["decl_file"], FORM["data1"], self.r.randint(1, len(us[ui].files))))
+        c_.attrs.append(Attr(AT["decl_line"], FORM["data1"], 42))
+        b_.attrs.append(Attr(AT[self.r.choice(["specification", "abstract_origin"])], FORM[self.r.choice(["ref4", "ref_udata"])], c_))
+        a_.attrs.append(Attr(AT[self.r.choice(["specification", "abstract_origin"])], FORM["ref_addr"], b_))
+        self.label("cross-unit-chain")
 
     def add_link_tree(self, dies):
         """A DIE with *both* links whose first target has a further link, and two leaves that supply
